@@ -94,8 +94,16 @@ pub open spec fn solutions_ok(sols: Seq<Solution>) -> bool {
     && (forall|i: int| 0 <= i < sols.len() ==> (#[trigger] sols[i]).predicate_data@.len() <= 100)
     && (forall|i: int, j: int| 0 <= i < sols.len() && 0 <= j < sols[i].predicate_data@.len() ==> (#[trigger] sols[i].predicate_data@[j])@.len() <= 10000) }
 ''')
-    so.fn('check_solutions', F('check_solutions', mode='assumed', ensures='r is Ok <==> solutions_ok(solutions@)',
-          note='loops with `.iter().enumerate()` (a provided trait method Verus cannot specify): bounded Kani check check_k2 (one limit at a time)', props=('C16', 'C04')))
+    so.fn('check_solutions', F('check_solutions', desugar_enumerate=True, ensures='r is Ok <==> solutions_ok(solutions@)',
+          loops={0: {'iter_name': 'its', 'invariant': '''1 <= solutions@.len() <= 100, its.seq().len() == solutions@.len(), solution_ix == its.index@,
+                    (forall|k: int| 0 <= k < its.seq().len() ==> *(#[trigger] its.seq()[k]) == solutions@[k]),
+                    forall|i: int| 0 <= i < its.index@ ==> (#[trigger] solutions@[i]).predicate_data@.len() <= 100
+                        && (forall|j: int| 0 <= j < solutions@[i].predicate_data@.len() ==> (#[trigger] solutions@[i].predicate_data@[j])@.len() <= 10000)'''},
+                 1: {'iter_name': 'itv', 'invariant': '''0 <= its.index@ < solutions@.len(), *solution == solutions@[its.index@ as int], solution.predicate_data@.len() <= 100,
+                    itv.seq().len() == solution.predicate_data@.len(), (forall|k: int| 0 <= k < itv.seq().len() ==> *(#[trigger] itv.seq()[k]) == solution.predicate_data@[k]),
+                    forall|j: int| 0 <= j < itv.index@ ==> (#[trigger] solution.predicate_data@[j])@.len() <= 10000''',
+                     'head_proof': 'assert(*v == solution.predicate_data@[itv.index@ as int]);'}},
+          props=('C16', 'C04', 'C06')))
     so.fn('check_set', F('check_set', ensures='r is Ok <==> solutions_ok(set.solutions@) && mutations_ok(*set)', props=('C16', 'C04')))
     so.item('struct PostState')
     so.fn('read_or_fallback', F('read_or_fallback', ensures="""
@@ -182,7 +190,11 @@ use crate::essential_types::predicate::Predicate; use crate::ext::secp256k1; use
     pm.item('enum InvalidPredicate')
     pm.item('const MAX_PREDICATES')
     pm.fn('check', F('check', ensures='r is Ok <==> predicate.nodes@.len() <= 1000 && predicate.edges@.len() <= 1000', props=('C16', 'C06')))
-    pm.fn('check_contract', F('check_contract', mode='assumed', ensures="""r is Ok <==> predicates@.len() <= 100
+    pm.fn('check_contract', F('check_contract', desugar_enumerate=True, ensures="""r is Ok <==> predicates@.len() <= 100
             && forall|i: int| 0 <= i < predicates@.len() ==> (#[trigger] predicates@[i]).nodes@.len() <= 1000 && predicates@[i].edges@.len() <= 1000""",
-          note='loops with `.iter().enumerate()`: bounded Kani check check_k2', props=('C16',)))
+          loops={0: {'iter_name': 'itp', 'invariant': '''predicates@.len() <= 100, itp.seq().len() == predicates@.len(), ix == itp.index@,
+                    (forall|k: int| 0 <= k < itp.seq().len() ==> *(#[trigger] itp.seq()[k]) == predicates@[k]),
+                    forall|i: int| 0 <= i < itp.index@ ==> (#[trigger] predicates@[i]).nodes@.len() <= 1000 && predicates@[i].edges@.len() <= 1000''',
+                     'head_proof': 'assert(*predicate == predicates@[itp.index@ as int]);'}},
+          props=('C16', 'C06')))
     return u
